@@ -45,6 +45,7 @@ static int TID[2] = { -1, -1 };
 static std::atomic<int> in_callback{ 0 }, ctl_while_busy{ 0 }, delay_us{ 0 };
 static std::atomic<int> writing[2];	/* the logging thread is inside the logger of target slot k right now */
 static std::atomic<int> closed_under_writer{ 0 };
+static std::atomic<int> is_closed[2], logger_after_close{ 0 };	/* the close callback of target slot k has run and the target was not enabled again since */
 static pthread_t worker_tid; static pthread_t main_tid; static std::atomic<int> have_worker{ 0 };
 static int freeze_pipe[2];
 static std::atomic<int> frozen{ 0 };
@@ -60,6 +61,7 @@ static void logger_cb(int32_t t, struct qb_log_callsite *cs, struct timespec *ts
 	int slot = t == TID[0] ? 0 : t == TID[1] ? 1 : -1;
 	bool from_worker = !pthread_equal(pthread_self(), main_tid);
 	if (slot >= 0 && from_worker) writing[slot]++;
+	if (slot >= 0 && is_closed[slot].load()) logger_after_close++;
 	long seq = -1;
 	if (msg[0] == 'm') seq = atol(msg + 1);
 	int d = delay_us.load();
@@ -76,7 +78,7 @@ static void logger_cb_threaded(int32_t t, struct qb_log_callsite *cs, struct tim
 	logger_cb(t, cs, ts, msg);
 }
 /* a target must not be closed (disable and custom_close both end up here) while the logging thread is writing to it */
-static void close_cb(int32_t t) { int slot = t == TID[0] ? 0 : t == TID[1] ? 1 : -1; if (slot >= 0 && writing[slot].load() > 0) closed_under_writer++; }
+static void close_cb(int32_t t) { int slot = t == TID[0] ? 0 : t == TID[1] ? 1 : -1; if (slot >= 0 && writing[slot].load() > 0) closed_under_writer++; if (slot >= 0) is_closed[slot] = 1; }
 static void reload_cb(int32_t t) { (void)t; }
 
 static void post(long seq, size_t z)
@@ -106,7 +108,7 @@ extern "C" int verif_case(const uint8_t *data, size_t size, struct verif_report 
 	long seq = 0;
 	bool nontrivial = false;
 	for (int s = 0; s < sessions && !r->fail; s++) {
-		GOT[0].clear(); GOT[1].clear(); have_worker = 0; delay_us = 0;
+		GOT[0].clear(); GOT[1].clear(); have_worker = 0; delay_us = 0; is_closed[0] = is_closed[1] = 0;
 		std::vector<long> postedA;		/* sequence numbers A must see (minus reported drops) */
 		std::vector<long> postedB_any;		/* everything posted while B existed: B may see a subsequence */
 		size_t bytes_posted = 0; long lost_reported = 0;
@@ -197,6 +199,7 @@ extern "C" int verif_case(const uint8_t *data, size_t size, struct verif_report 
 				if (!b_enabled && delivered(0) < postedA.size()) VCLASS(r, K_BDIS);
 				if (in_callback.load() > 0) ctl_while_busy++;
 				VLOG(r, "  B %s\n", b_enabled ? "enabled" : "disabled");
+				if (b_enabled) is_closed[1] = 0;
 				qb_log_ctl(TID[1], QB_LOG_CONF_ENABLED, b_enabled ? QB_TRUE : QB_FALSE);
 			}
 			else if (k == 10 && b_open) { int od = delay_us.load();
@@ -280,6 +283,7 @@ extern "C" int verif_case(const uint8_t *data, size_t size, struct verif_report 
 			}
 		}
 	}
+	if (!r->fail && logger_after_close.load()) VFAIL(r, "logger-after-close", "a target's logger was called %d time(s) after its close callback had run (the target was disabled or closed in the meantime and not enabled again)", logger_after_close.load());
 	if (!r->fail && closed_under_writer.load()) VFAIL(r, "closed-under-writer", "a target's close callback ran %d time(s) while the logging thread was inside that target's logger", closed_under_writer.load());
 	dup2(real_out, 1); close(real_out); close(mfd);
 	if (ctl_while_busy.load()) { VCLASS(r, K_CTLBUSY); nontrivial = true; }
